@@ -11,7 +11,14 @@ check
   2. exports it with `Model.export`,
   3. imports the package in a SUBPROCESS in which `import modelx` raises
      (export_runner.py: `sys.modules['modelx'] = None`) and runs the same queries,
-  4. compares canonical values (ints, bools, None, strings, tuples/lists/dicts of those).
+  4. compares canonical values (export_runner.canon: plain ints, bools, None, strings, floats,
+     containers of those; OBJECTS by exact type name plus value, so that a plain 0.05 returned in
+     place of a `Percent(0.05)` is a difference).
+Enumerated first on every run (exportvals.motif_family): one model per reference VALUE KIND - the
+literal types at their boundary values, instances of strict subclasses of them (user classes, enum
+members, numpy scalars), look-alikes, containers, arrays, importable things - held at model level,
+space level, in a derived space, in ItemSpaces and below one, read by every pattern that exposes the
+exact type; then pairs of kinds across the literal / non-literal boundary.
 Oracle (implementation only): wherever the model yields a value the package must yield the
 same value; the package must import; it must not load modelx; `export` must not raise.
 Queries on which the model itself raises are not compared.
@@ -23,11 +30,16 @@ depend on formula text.  Correspondence for them:
     generated `_mx_classes.py` with `ast`);
   * `look`: for probe cells `lambda: <name>` in (nested) parametrised spaces, the value found
     by the exported instance and by modelx must be the entry `exportedLookup` / `mxLookup`
-    select.
+    select;
+  * `refval`: for every reference of the model and of every space, the way it was written into
+    `_mx_assign_refs` (attribute path / source literal / import_module / IO data / pickled dict,
+    read off the generated modules with `ast`) must be the branch `MxModel.Export.refValue` takes
+    for the value's exact type and bases (tables extracted from ParentTranslator.ref_value).
 """
 import ast
 import json
 import os
+import re
 import shutil
 import symtable
 import tempfile
@@ -36,6 +48,7 @@ from .. import core
 from .. import exportgen as G
 from .. import exportworld as W
 from .. import export_runner as R
+from .. import exportvals as V
 from ..impl import mx, close_all, quiet, err_kind
 
 
@@ -252,6 +265,96 @@ def rewrite_lines(desc, m, pkg_dir, skip_spaces=None):
     return out
 
 
+# ----------------------------------------------------------------------------- the reference-value correspondence
+
+def _emit_class(node):
+    """which branch of ParentTranslator.ref_value wrote this right-hand side"""
+    if isinstance(node, ast.Subscript) and isinstance(node.value, ast.Name) and node.value.id in ("pickle_data", "io_data"):
+        return "pickle" if node.value.id == "pickle_data" else "io"
+    if isinstance(node, ast.Call) and ast.unparse(node.func) == "_mx_sys.import_module":
+        return "module"
+    n = node
+    while isinstance(n, ast.Attribute):
+        n = n.value
+    if isinstance(n, ast.Name) and n.id == "self":
+        return "path"
+    return "literal"        # whatever pprint.pformat wrote (a constant - or text that is not one)
+
+
+_ASSIGN = re.compile(r"^\s+self\.([A-Za-z_]\w*) = (.*)$")
+
+
+def emitted_refs(pkg_dir, path, model_name):
+    """{reference name: 'path'|'literal'|'module'|'io'|'pickle'} read off `_mx_assign_refs` of the class
+    generated for the space at `path` (`()`: the model).  Falls back to the text of the lines when the
+    generated module is not valid Python."""
+    d = pkg_dir
+    for nm in path[:-1]:
+        d = os.path.join(d, "_m_" + nm)
+    fname = os.path.join(d, "_mx_classes.py" if path else "_mx_model.py")
+    cname = "_c_" + (path[-1] if path else model_name)
+    text = open(fname).read()
+    res = {}
+    try:
+        tree = ast.parse(text)
+    except SyntaxError:
+        tree = None
+    if tree is not None:
+        for node in tree.body:
+            if isinstance(node, ast.ClassDef) and node.name == cname:
+                for fn in node.body:
+                    if isinstance(fn, ast.FunctionDef) and fn.name == "_mx_assign_refs":
+                        for st in fn.body:
+                            if isinstance(st, ast.Assign) and len(st.targets) == 1 and \
+                                    isinstance(st.targets[0], ast.Attribute) and \
+                                    isinstance(st.targets[0].value, ast.Name) and st.targets[0].value.id == "self":
+                                res[st.targets[0].attr] = _emit_class(st.value)
+        return res
+    inside_cls = inside_fn = False
+    for line in text.split("\n"):
+        if line.startswith("class "):
+            inside_cls = line.startswith("class %s(" % cname)
+            inside_fn = False
+        elif inside_cls and line.lstrip().startswith("def "):
+            inside_fn = line.lstrip().startswith("def _mx_assign_refs(")
+        elif inside_cls and inside_fn:
+            mm = _ASSIGN.match(line)
+            if mm:
+                rhs = mm.group(2)
+                res[mm.group(1)] = ("pickle" if rhs.startswith("pickle_data[") else
+                                    "io" if rhs.startswith("io_data[") else
+                                    "module" if rhs.startswith("_mx_sys.import_module(") else
+                                    "path" if re.match(r"self(\.|$)", rhs) else "literal")
+    return res
+
+
+def refval_lines(desc, m, pkg_dir):
+    """-> [(driver line, observed emission, where, type name)] for every reference of the model and of
+    every static space"""
+    out = []
+    holders = [((), m)]
+    for path, _sp in W.iter_spaces(desc):
+        try:
+            holders.append((path, W._get(m, ".".join(path))))
+        except Exception:       # noqa: BLE001
+            continue
+    for path, obj in holders:
+        try:
+            emitted = emitted_refs(pkg_dir, path, desc["name"])
+        except Exception:       # noqa: BLE001
+            continue
+        for k, v in obj.refs.items():
+            if k[0] == "_" or k not in emitted:
+                continue
+            t = V.traits_of(v, m)
+            line = "refval ty=%s bases=%s iface=%d valid=%d mod=%d io=%d" % (
+                t["ty"], ",".join(t["bases"]), t["iface"], t["valid"], t["mod"], t["io"])
+            if " " in t["ty"] or any(" " in b or "," in b for b in t["bases"]):
+                continue
+            out.append((line, emitted[k], "%s:%s" % (".".join(path) or "<model>", k), t["ty"]))
+    return out
+
+
 # ----------------------------------------------------------------------------- the lookup correspondence
 
 def probe_name(src):
@@ -317,6 +420,8 @@ def _declares(desc, path, name):
 def res_of(r):
     if "ok" in r and type(r["ok"]) is int:
         return "val %d" % r["ok"]
+    if "ok" in r and isinstance(r["ok"], dict) and "i" in r["ok"]:
+        return "val %d" % int(r["ok"]["i"])       # an int beyond 2**52 (canon writes it as text)
     if "ok" in r and isinstance(r["ok"], dict) and r["ok"].get("other") in ("method", "Cells", "function"):
         return "cells"
     if "err" in r:
@@ -339,6 +444,7 @@ class Case:
         self.triggers = {}
         self.rw = []
         self.look = []
+        self.refval = []
 
 
 def prepare(case, rng, tmp, stats, fixed_queries=None):
@@ -375,6 +481,10 @@ def prepare(case, rng, tmp, stats, fixed_queries=None):
                                     skip_spaces=set(k for k, v in case.triggers.items() if v))
         except Exception as e:      # noqa: BLE001
             stats["rw_extraction_failed"] = stats.get("rw_extraction_failed", 0) + 1
+        try:
+            case.refval = refval_lines(desc, m, os.path.join(tmp, case.pkg))
+        except Exception as e:      # noqa: BLE001
+            stats["refval_extraction_failed"] = stats.get("refval_extraction_failed", 0) + 1
         for qi, q in enumerate(case.queries):
             if "_levels" not in q or q.get("kw") or q.get("args"):
                 continue
@@ -418,7 +528,7 @@ def compare(case, rec, out, stats, samples):
     if rec["import"] != "ok":
         key = trigger_key(case, None)
         out.fail("C15: exported package cannot be imported without modelx (%s)%s" % (
-            rec["import"], " [%s]" % key if key else ""), hist(None), detail={"stderr": rec.get("stderr")}, key=key)
+            rec["import"], " [%s]" % key if key else ""), hist(None), detail={"error": rec.get("error"), "stderr": rec.get("stderr")}, key=key)
         return
     if rec.get("modelx_loaded"):
         out.fail("C15: the exported package loaded modelx", hist(None))
@@ -473,6 +583,9 @@ def run_batch(ctx, cases, out, stats, samples, rngs=None, fixed=None):
             for line, obs, where in case.rw:
                 driver_lines.append(line)
                 driver_meta.append(("rw", case, obs, where))
+            for line, obs, where, tyname in case.refval:
+                driver_lines.append(line)
+                driver_meta.append(("refval", case, obs, (where, tyname)))
             if rec.get("import") == "ok" and case.problem is None:
                 for qi, line in case.look:
                     if qi < len(rec["results"]):
@@ -488,6 +601,13 @@ def run_batch(ctx, cases, out, stats, samples, rngs=None, fixed=None):
                     stats["rw_" + pred] = stats.get("rw_" + pred, 0) + 1
                     if obs != pred:
                         out.disagree({"desc": case.desc, "line": line, "where": where}, 0, obs, mo, layer="export")
+                elif kind == "refval":
+                    stats["refval_decisions"] += 1
+                    pred = {"none": "literal"}.get(mo, mo)      # an invalidated modelx object is written as `None`
+                    stats["refval_" + pred] = stats.get("refval_" + pred, 0) + 1
+                    if obs != pred:
+                        out.disagree({"desc": case.desc, "line": line, "where": where[0], "type": where[1]}, 0,
+                                     "written as " + obs, mo, layer="export")
                 else:
                     exp_m, got_e = obs
                     stats["look_decisions"] += 1
@@ -521,7 +641,7 @@ def load_corpus():
 def new_stats():
     return {"queries": 0, "compared": 0, "model_raises": 0, "model_value_not_canonical": 0,
             "compared_repeat_cache_hit": 0, "compared_in_instance": 0, "compared_in_nested_instance": 0,
-            "rw_decisions": 0, "look_decisions": 0}
+            "rw_decisions": 0, "look_decisions": 0, "refval_decisions": 0}
 
 
 def run(ctx, out):
@@ -544,6 +664,21 @@ def run(ctx, out):
         idx += 1
     if ccases:
         run_batch(ctx, ccases, out, stats, samples, fixed=cfixed)
+    # the structured family: one model per reference value kind, then pairs (the same on every run;
+    # only the query arguments depend on the seed)
+    family = V.motif_family()
+    if os.environ.get("VERIF_C15_MOTIFS"):
+        family = [x for x in family if any(w in x[0] for w in os.environ["VERIF_C15_MOTIFS"].split(","))]
+    mcases, mrngs = [], []
+    for label, d in family:
+        d = dict(d, name="V%d" % idx)
+        mcases.append(Case(idx, d, "motif/" + label))
+        mrngs.append(ctx.rng("motif", label))
+        idx += 1
+    before_m = stats["compared"]
+    for k in range(0, len(mcases), batch):
+        run_batch(ctx, mcases[k:k + batch], out, stats, samples, rngs=mrngs[k:k + batch])
+    motif_compared = stats["compared"] - before_m
     programs = set()
     nontrivial = 0
     skipped_trigger = 0
@@ -578,6 +713,9 @@ def run(ctx, out):
         "samples": samples,
         "programs": len(programs),
         "corpus_cases": len(corpus),
+        "motif_models": len(mcases),
+        "motif_values_compared": motif_compared,
+        "value_kinds": [k.id for k in V.KINDS],
         "input_distribution": {"profiles": profiles, "features": features, "counters": stats,
                                "models_skipped_for_known_trigger": skipped_trigger},
     })
@@ -588,6 +726,9 @@ def run(ctx, out):
     out.assumptions.append(
         "documented exclusions of export_model bound the generator: no relative references inside ItemSpaces, "
         "no IOSpec other than PandasData (none generated), parameterless cells are always called with ()")
+    out.assumptions.append(
+        "reference values are picklable and their classes importable where the package is imported (the user "
+        "library c15_usertypes.py, numpy, pandas and the standard library are on the path of the subprocess)")
 
 
 def replay(ctx, payload, out):
